@@ -62,6 +62,12 @@ var (
 	ErrGroupEpoch = errors.New("client-provided group epoch differs from broker group epoch")
 )
 
+// deletedStream is a stream that was deleted at the given epoch.
+type deletedStream struct {
+	name  string
+	epoch uint64
+}
+
 // metadataAPI is the internal API for interacting with cluster data. All
 // stream access should go through the exported methods of the metadataAPI.
 type metadataAPI struct {
@@ -75,6 +81,7 @@ type metadataAPI struct {
 	consumerGroupsMu   sync.RWMutex
 	consumerGroups     map[string]*consumerGroup
 	groupFailovers     map[*consumerGroup]*failoverStatus
+	deletedStreams     []deletedStream // Deleted streams the consumer groups have not been updated for yet
 	stats              struct {
 		sync.RWMutex
 		brokerLeaderLoad      map[string]int
@@ -1072,6 +1079,8 @@ func (m *metadataAPI) AddStream(protoStream *proto.Stream, recovered bool, epoch
 		return nil, errors.New("stream has no partitions")
 	}
 
+	// Consumer groups are updated once the mutex has been released.
+	defer m.notifyStreamsDeleted()
 	m.mu.Lock()
 	defer m.mu.Unlock()
 
@@ -1443,6 +1452,8 @@ func (m *metadataAPI) resetFailovers() {
 // tombstone. Tombstoned streams will be deleted after the recovery process
 // completes.
 func (m *metadataAPI) RemoveStream(stream *stream, recovered bool, epoch uint64) error {
+	// Consumer groups are updated once the mutex has been released.
+	defer m.notifyStreamsDeleted()
 	m.mu.Lock()
 	defer m.mu.Unlock()
 
@@ -1453,6 +1464,8 @@ func (m *metadataAPI) RemoveStream(stream *stream, recovered bool, epoch uint64)
 	// recreate will un-tombstone the stream.
 	if recovered {
 		stream.Tombstone()
+		// The stream is deleted as far as consumer groups are concerned.
+		m.deletedStreams = append(m.deletedStreams, deletedStream{name: stream.GetName(), epoch: epoch})
 	} else {
 		if err := m.deleteStream(stream, epoch); err != nil {
 			return err
@@ -1482,6 +1495,8 @@ func (m *metadataAPI) RemoveTombstonedStream(stream *stream, epoch uint64) error
 	if !stream.IsTombstoned() {
 		return fmt.Errorf("cannot delete stream %s because it is not tombstoned", stream)
 	}
+	// Consumer groups are updated once the mutex has been released.
+	defer m.notifyStreamsDeleted()
 	m.mu.Lock()
 	defer m.mu.Unlock()
 	return m.deleteStream(stream, epoch)
@@ -1516,8 +1531,9 @@ func (m *metadataAPI) deleteStream(stream *stream, epoch uint64) error {
 }
 
 // removeStream removes the stream from the stream store, cancels any
-// in-flight failovers for its partitions, and triggers a rebalance of consumer
-// group assignments.
+// in-flight failovers for its partitions, and records the stream as deleted
+// for the consumer groups. The caller must call notifyStreamsDeleted after
+// releasing the mutex to rebalance consumer group assignments.
 func (m *metadataAPI) removeStream(stream *stream, epoch uint64) {
 	delete(m.streams, stream.GetName())
 	for _, partition := range stream.GetPartitions() {
@@ -1527,13 +1543,29 @@ func (m *metadataAPI) removeStream(stream *stream, epoch uint64) {
 			delete(m.partitionFailovers, partition)
 		}
 	}
-	m.startGoroutine(func() {
-		m.consumerGroupsMu.RLock()
+	m.deletedStreams = append(m.deletedStreams, deletedStream{name: stream.GetName(), epoch: epoch})
+}
+
+// notifyStreamsDeleted updates the consumer groups for the streams that have
+// been deleted. This is done as part of the operation that deleted the
+// streams, rather than asynchronously, so that every server applies it at the
+// same point relative to other consumer group operations. It must be called
+// without holding the mutex since rebalancing consumer groups reads streams.
+func (m *metadataAPI) notifyStreamsDeleted() {
+	m.mu.Lock()
+	deleted := m.deletedStreams
+	m.deletedStreams = nil
+	m.mu.Unlock()
+	if len(deleted) == 0 {
+		return
+	}
+	m.consumerGroupsMu.RLock()
+	defer m.consumerGroupsMu.RUnlock()
+	for _, stream := range deleted {
 		for _, group := range m.consumerGroups {
-			group.StreamDeleted(stream.GetName(), epoch)
+			group.StreamDeleted(stream.name, stream.epoch) // nolint: errcheck
 		}
-		m.consumerGroupsMu.RUnlock()
-	})
+	}
 }
 
 func (m *metadataAPI) getStreams() []*stream {
